@@ -101,6 +101,9 @@ def degenerate_scenes(tier):
         # warning-only anomalies, one of each kind: a type-0 record carrying a height and a type-1 record with NaN
         ('anomaly-swap', rows([['a', -45., 1000., 1], ['a', -30., 1010., 0], ['a', -15., None, 1], ['a', 0., 1020., 1]])),
         ('anomaly-t0-height', rows([['a', -45., 1000., 1], ['a', -30., 1010., 0], ['a', -15., 1005., 1], ['a', 0., 1020., 1]])),
+        # only second / third hits (type 2 without type 1 is a warning-only anomaly): with an MSA below them EVERY row is cropped away
+        ('only-higher-hits', rows([['a', -15., 5000., 2], ['a', 0., 5200., 2]])),
+        ('only-higher-hits+nd', rows([['a', -15., 5000., 2], ['a', -15., 5100., 3], ['b', 0., None, 0]])),
         ('anomaly-t1-nan', rows([['a', -45., 1000., 1], ['a', -30., None, 1], ['a', -15., 1005., 1], ['a', 0., 1020., 1]])),
     ]
     return out
@@ -169,4 +172,24 @@ def streak_scenes(tier=None):
                 else:
                     rows.append([c, dt, None, 0])
         out.append(('streak:%g:%g:%d:%g' % (hi, lo, nstreak, step), {'gen': 'rows', 'rows': rows}))
+    return out
+
+
+def sync_tie_scenes(tier=None):
+    """K synchronised ceilometers (every time stamp is a K-way tie), two thin decks d ft apart seen as first / second hits, the upper deck with
+    two low outliers well inside any look-back window and a third one IN the tie group where the look-back cut falls (for look-back 35 / 45 %)."""
+    out = []
+    K, T = 4, 30
+    for d in (110.,):
+        for (step_back, c) in [(sb, c) for sb in (10, 11, 12, 14) for c in range(K)]:
+            rows = []
+            for i in range(T):
+                dt = 0.0 - 30. * (T - 1 - i)
+                for k in range(K):
+                    up = 1000. + d + 5. * (i % 3 - 1)
+                    if (i, k) in ((T - 3, 0), (T - 6, 2)) or (i, k) == (T - step_back, c):
+                        up = 1000. + d - 25.
+                    rows.append(['c%d' % k, dt, 1000. + 5. * (i % 3 - 1), 1])
+                    rows.append(['c%d' % k, dt, up, 2])
+            out.append(('sync:%g:%d:%d' % (d, step_back, c), {'gen': 'rows', 'rows': rows}))
     return out
